@@ -404,6 +404,16 @@ const REQUIRED_PROBES: &[&str] = &[
     "rt_seq_ok",
     "rt_map_ok",
     "rt_map_reversed_ok",
+    "rt_map_fields_hint_ok",
+    "de_format_honours_fields_hint",
+    "json_host_rt_ok",
+    "json_host_flatten",
+    "json_host_untagged",
+    "json_host_internally_tagged",
+    "json_host_option",
+    "json_host_vec",
+    "json_host_btreemap",
+    "json_host_tuple",
     "de_reject_duplicate_hi",
     "de_reject_duplicate_lo",
     "de_reject_missing_hi",
